@@ -241,6 +241,16 @@ func checkCase(c Case, others []Case) (Outcome, error) {
 			return out, fmt.Errorf("%s: repetition %d of the same planning/marshalling/formatting/hashing gives different bytes: %s", c.Dialect, i+2, firstDiff(ref, again))
 		}
 	}
+	// an unrelated operation of another kind: a driver connected to another server (MySQL 5.7, whose default collation of
+	// utf8mb4 is utf8mb4_general_ci) compares two tables; what it learned from that server must not leak into this plan
+	if err := otherServerWork(); err != nil {
+		return out, fmt.Errorf("harness: %v", err)
+	}
+	if again, err := Render(c, 0); err != nil {
+		return out, err
+	} else if digest(again) != digest(ref) {
+		return out, fmt.Errorf("%s: after a driver connected to another server did unrelated work in the process, the same planning/marshalling/formatting/hashing gives different bytes: %s", c.Dialect, firstDiff(ref, again))
+	}
 	// concurrency: this case 4x plus unrelated cases, all at once
 	var wg sync.WaitGroup
 	res := make([]map[string]string, 4+len(others))
@@ -289,4 +299,24 @@ func checkCase(c Case, others []Case) (Outcome, error) {
 		}
 	}
 	return out, nil
+}
+
+// otherServerWork diffs two tables through a driver connected to a (mocked) MySQL 5.7 server.
+func otherServerWork() error {
+	drv, err := gm.OpenMySQLServer("5.7.44", map[string]string{"utf8mb4": "utf8mb4_general_ci", "utf8": "utf8_general_ci", "latin1": "latin1_swedish_ci", "verif_cs": "verif_cs_ci"})
+	if err != nil {
+		return err
+	}
+	mk := func(collate string) *schema.Schema {
+		t := schema.NewTable("u").AddColumns(schema.NewIntColumn("id", "int"), schema.NewStringColumn("s", "varchar", schema.StringSize(10))).SetCharset("utf8mb4")
+		if collate != "" {
+			t.SetCollation(collate)
+		}
+		return schema.New("elsewhere").SetCharset("utf8mb4").SetCollation("utf8mb4_general_ci").AddTables(t)
+	}
+	if _, err := drv.SchemaDiff(mk(""), mk("utf8mb4_bin")); err != nil {
+		return err
+	}
+	_, err = drv.SchemaDiff(mk("utf8mb4_bin"), mk(""))
+	return err
 }
